@@ -231,6 +231,75 @@ def gen_twin_cases(ctx, tg, n):
     return cases
 
 
+# ---- locations hanging off EXPRESSION owners that differ only by hash-equal operands ---------
+def _f(x):
+    return ["f", float(x).hex()]
+
+
+M61 = 2 ** 61 - 1
+HASH_EQ = [(rs.I(-1), rs.I(-2)), (rs.I(1), ["b", True]), (rs.I(0), ["b", False]), (rs.I(0), rs.I(M61)), (rs.I(3), rs.I(3 + M61)),
+           (rs.I(-1), rs.I(-2 - M61)), (rs.I(1), _f(1.0)), (["b", True], _f(1.0)), (rs.I(0), _f(-0.0)), (_f(0.0), _f(-0.0)), (rs.I(2), _f(2.0))]
+
+
+def _pyval(l):
+    t = l[0]
+    return int(l[1]) if t == "i" else bool(l[1]) if t == "b" else float.fromhex(l[1])
+
+
+HASH_EQ = [(a, b) for a, b in HASH_EQ if hash(_pyval(a)) == hash(_pyval(b))]      # as this Python hashes them
+C = ["top", "c", False]
+
+
+def owner_expr(rng, tg, x, shape):
+    """an expression node in which the literal x occurs once (as an operand or as a key below it)"""
+    cx = ["const", x]
+    la = _it(C, rs.Sx("a"))
+    if shape == 0:
+        return ["bin", tg.bin[0], _it(_it(C, rs.Sx("l")), x), ["const", rs.I(0)]]           # (c['l'][x] + 0)
+    if shape == 1:
+        return ["bin", rng.choice(tg.bin), la, cx]                                          # (c['a'] op x)
+    if shape == 2:
+        return ["bin", rng.choice(tg.bin), cx, la]                                          # (x op c['a'])
+    if shape == 3:
+        return ["un", rng.choice(tg.un), _it(_it(C, rs.Sx("l")), x)]                        # -(c['l'][x])
+    if shape == 4:
+        return ["builtin", 1, la, [cx]]                                                     # round(c['a'], x)
+    if shape == 5:
+        return ["call", _it(C, rs.Sx("f")), [cx], []]                                       # c['f'](x)
+    if shape == 6:
+        return ["call", _it(C, rs.Sx("f")), [la], [["k", cx]]]                              # c['f'](c['a'], k=x)
+    return ["bin", rng.choice(tg.bin), ["un", rng.choice(tg.un), ["bin", rng.choice(tg.bin), la, cx]], _it(C, rs.Sx("b"))]   # deeper
+
+
+def gen_hashpair_cases(ctx, tg, n):
+    rng = ctx.rng
+    cases = []
+    for j in range(n):
+        x, y = HASH_EQ[j % len(HASH_EQ)]
+        shape = (j // len(HASH_EQ)) % 8
+        st = rng.getstate()
+        e1 = owner_expr(rng, tg, x, shape)
+        rng.setstate(st)                       # the same random choices: the two owners differ in the literal only
+        e2 = owner_expr(rng, tg, y, shape)
+        k = rng.random()
+        if k < 0.4:
+            l1, l2 = _at(e1, "v"), _at(e2, "v")                           # attribute of an expression
+        elif k < 0.7:
+            key = rng.choice([rs.I(0), rs.Sx("v"), rs.I(-1)])
+            l1, l2 = _it(e1, key), _it(e2, key)                           # item of an expression
+        elif k < 0.85:
+            l1, l2 = _at(_at(e1, "v"), "w"), _at(_at(e2, "v"), "w")       # one level further down
+        else:
+            base = _it(C, rs.Sx("l"))
+            l1, l2 = ["item", base, _at(e1, "v")], ["item", base, _at(e2, "v")]      # inside a computed key
+        t = twin_term(rng, tg, l1, l2)
+        cases.append({"term": t, "state": gen_state(rng), "objattr": rs.OBJATTR, "wellformed": wellformed(t),
+                      "hashpair": f"{x[0]}{x[1]}~{y[0]}{y[1]}/shape{shape}",
+                      # float literals are outside the literal syntax of the Coq terms: judged by the slot-walk oracle only
+                      "oracle_only": x[0] == "f" or y[0] == "f"})
+    return cases
+
+
 def run_cases(cases, ids):
     classes, fns = ids
     parts = list(vlib.chunks(cases, max(1, (len(cases) + 15) // 16)))
@@ -248,7 +317,9 @@ def run(ctx):
                 "compared: _get_dependencies() as a set of terms / None / exception vs model deps over the regenerated tables, and vs the "
                 "syntactic occurrence list; plus expressions that read TWO DIFFERENT locations whose printed forms coincide (o.p.x vs getattr(o,'p.x'), "
                 "o.p.q[0] vs getattr(o,'p.q[0]'), attribute o.y vs a container labelled 'o.y', the same one level up the owner chain), side by side and "
-                "nested below other nodes, judged structurally (owner chain, key, step kind); non-trivial = a (class, slot) pair holding a reference, and every perturbation case; "
+                "nested below other nodes, judged structurally (owner chain, key, step kind); plus pairs of locations hanging off EXPRESSION owners "
+                "(attribute / item of a binary, unary, builtin or call node, one level further down, inside a computed key) whose owners differ only in "
+                "one literal with an equal Python hash (-1/-2, 1/True/1.0, 0/False/-0.0/0.0, k/k+2**61-1); non-trivial = a (class, slot) pair holding a reference, and every perturbation case; "
                 "distinct by (class, slot) and by expression")
     proof_ok = vlib.standard_proof_part(ctx, "props/C05.v", allowed_axioms=(), extra_targets=["run/RunRefs.vo"], translators=["refs"])
     classes, fns, iderr = rs.ids()
@@ -259,7 +330,8 @@ def run(ctx):
     conc = concrete(info["compiled"])
     unknown_cls = [n for n in conc if n not in classes] + [n for n in concrete(info["pure"]) if n not in conc]
     tg = TermGen(ctx.rng, classes, info["compiled"])
-    cases = gen_cases(ctx, tg, ctx.pick(700, 40000), ctx.pick(150, 8000)) + gen_twin_cases(ctx, tg, ctx.pick(180, 6000))
+    cases = gen_cases(ctx, tg, ctx.pick(700, 40000), ctx.pick(150, 8000)) + gen_twin_cases(ctx, tg, ctx.pick(180, 6000)) \
+        + gen_hashpair_cases(ctx, tg, ctx.pick(264, 8000))
     res, unknown = run_cases(cases, ids)
     cerrs = rs.case_errors(res)
     unknown = sorted(set(unknown) | set(unknown_cls))
@@ -273,6 +345,8 @@ def run(ctx):
             r = res[b][i]
             if r.get("oracle"):
                 oracle_fail.append((i, b))
+        if "hashpair" in c:
+            ctx.nontrivial.add("hashpair:" + c["hashpair"])
         if "twin" in c:
             ctx.nontrivial.add(f"twin:{c['twin']}:{'perturb' if c.get('perturb') else c['term'][0]}")
         a, p = res["compiled"][i], res["pure"][i]
@@ -302,7 +376,8 @@ def run(ctx):
             items.append(f"({cterm(r['term'])}, {obs})")
             idx.append(i)
         except Unrep:
-            unrep.append(i)
+            if not c.get("oracle_only"):
+                unrep.append(i)
     mism = []
     coq_ok = iderr is None
     if coq_ok:
@@ -348,7 +423,9 @@ def run(ctx):
                                      "slots_required": len(required_slots), "slots_covered": len(set(required_slots) & seen_slots),
                                      "result_shapes": shapes, "nested_layout_cases": len(ncases), "nested_probes_compared": nprobes,
                                      "deps_size_hist": {str(k): sum(1 for r in okrecs if r["deps"][0] == "set" and len(r["deps"][1]) == k) for k in range(0, 12)},
-                                     "twin_location_cases": sum(1 for c in cases if "twin" in c)}
+                                     "twin_location_cases": sum(1 for c in cases if "twin" in c),
+                                     "hash_equal_owner_pairs": sum(1 for c in cases if "hashpair" in c), "hash_equal_literal_pairs": len(HASH_EQ),
+                                     "hash_equal_pairs_oracle_only_float_literals": sum(1 for c in cases if c.get("oracle_only"))}
     ctx.samples = [{"term": res["compiled"][0].get("term"), "deps": res["compiled"][0].get("deps")},
                    {"twin case": cases[-1].get("pexp") or cases[-1].get("term"), "deps": res["compiled"][-1].get("deps")}]
     ctx.obligations.append(("correspondence: _get_dependencies() = model deps over GenRefs.v = syntactic occurrences, both builds",
@@ -384,7 +461,7 @@ def run(ctx):
             what.append("node classes / functions the translator does not know (tie broken): " + ", ".join(unknown))
         if missing_cls or missing_slots:
             what.append(f"not exercised: classes {missing_cls} slots {missing_slots}")
-        extra = gen_cases(ctx, tg, 8000, 1500) + gen_twin_cases(ctx, tg, 1200)
+        extra = gen_cases(ctx, tg, 8000, 1500) + gen_twin_cases(ctx, tg, 1200) + gen_hashpair_cases(ctx, tg, 1500)
         res2, _ = run_cases(extra, ids)
         found = None
         for b in ("compiled", "pure"):
